@@ -320,8 +320,8 @@ func c20TransportChild(args []string) int {
 						pool.ReleaseBuf(qb)
 						switch {
 						case err == nil:
-							if resp.Header.ID != id || len(resp.Questions) != 1 {
-								wrong.Add(1)
+							if qn, _, _, okq := upQuestion(resp); resp.Header.ID != id || len(resp.Questions) != 1 || !okq || !strings.EqualFold(qn, name) {
+								wrong.Add(1) // a reply that belongs to another exchange (its id is rewritten to the caller's, its question is not)
 							}
 							ok.Add(1)
 							dnsmsg.ReleaseMsg(resp)
@@ -350,7 +350,7 @@ func c20TransportChild(args []string) int {
 				}
 			}
 			if wrong.Load() > 0 {
-				fmt.Printf("VIOL wrong-message-returned:%s %d exchanges over %s returned a message with a foreign id or without a question\n", scheme, wrong.Load(), scheme)
+				fmt.Printf("VIOL wrong-message-returned:%s %d exchanges over %s returned a message with a foreign id or another exchange's question\n", scheme, wrong.Load(), scheme)
 			}
 			fmt.Printf("COUNT server_queries_%s %d\n", scheme, len(s.Log()))
 			fmt.Printf("COUNT exchanges_%s %d\nCOUNT ok_%s %d\nCOUNT cancelled_%s %d\nCOUNT failed_%s %d\nCOUNT wrong_%s %d\n",
